@@ -215,6 +215,9 @@ func (c *conn) run(kind, query string, args []Value, binary bool) ([]*result, er
 		e.Err = err.Error()
 	}
 	for _, r := range rs {
+		if r == nil {
+			continue
+		}
 		e.Affected += r.affected
 		if r.insertID != 0 && e.InsertID == 0 {
 			e.InsertID = r.insertID
